@@ -132,6 +132,17 @@ def run(F, rep, tier):
                 rep.viol('R5.2', cr[0] + '|parent', 'a call\'s scope is not parented on the closure\'s defining environment (%s)' % sorted(map(str, og)), wp[0].loc())
         else:
             rep.viol('R5.2', cr[0] + '|scope-count', 'Closure::run creates %d scopes per call' % len(wp), cb.loc(0))
+        # every call gets the fresh scope: the body and the parameter binding run in an environment that can only be the new scope
+        users = [c for c in cb.calls if c.target in ('eval::evaluate', 'eval::assign_all', 'eval::eval_lvalue', 'eval::assign')]
+        nonfresh = []
+        for c in users:
+            og = origins(cb, c.args[0], passthru=('deref', 'as_ref', 'borrow'))
+            if not og or not all(o[0] == 'call' and o[1] in SC for o in og):
+                nonfresh.append((c, sorted(str(o[:2]) for o in og)))
+        if users and not nonfresh:
+            rep.ok('R5.2', 'Closure::run body scope', '%d use(s) of the environment, all of the freshly created scope' % len(users))
+        elif nonfresh:
+            rep.viol('R5.2', cr[0] + '|conditional-scope', 'Closure::run can evaluate the body or bind parameters in an environment that is not a fresh child scope (%s): for some lambdas a `:=` in the body lands in the defining scope, so a second call redeclares and closures share state' % nonfresh[0][1], nonfresh[0][0].loc())
         if not any('RefCell<core::Env>' in t for t in sig[1:]):
             rep.ok('R5.2', 'Closure::run signature', 'does not receive the caller\'s environment')
         else:
@@ -379,5 +390,16 @@ def run(F, rep, tier):
             rep.ok('R5.8', fn, 'operands parsed by %s in a loop (%d call sites), no self-recursion' % (sub.rsplit('::', 1)[-1], len(subs)))
         else:
             rep.viol('R5.8', fn + '|layering', '%s parses an operand by calling itself or no longer loops over %s (self calls %d, %s calls %d): the grouping of and / or / coalesce chains changes' % (fn.rsplit('::', 1)[-1], sub.rsplit('::', 1)[-1], len(selfrec), sub.rsplit('::', 1)[-1], len(subs)), (selfrec or subs or [None])[0].loc() if (selfrec or subs) else None)
+    # ---------------- R5.9
+    rep.rule('R5.9', '`for .. yield e into max|min` is the fold of the same function: CataExtremum::give replaces its incumbent under exactly the '
+             'test Extremum::run uses (ncmp(candidate, incumbent) == bias; first of equal values wins; incomparable values raise)')
+    from .c08 import cata_extremum
+    found_, ok_, why_, loc_ = cata_extremum(F)
+    if not found_:
+        rep.error('R5.9', why_)
+    elif ok_:
+        rep.ok('R5.9', 'CataExtremum::give', 'agrees with Extremum::run')
+    else:
+        rep.viol('R5.9', 'CataExtremum::give|shape', 'the folding form `yield .. into max|min` disagrees with max|min applied to the list: %s' % why_, loc_)
     rep.undecided += ['equivalence with a reference interpreter over all programs', 'yield/into folding values', 'eval of computed strings']
     return META
